@@ -81,7 +81,7 @@ func (ip *Interp) sprint(fr *frame, ops []Value, ln bool) Value {
 func (ip *Interp) format(fr *frame, fv Value, ops []Value) Value {
 	f, ok := fv.(string)
 	if !ok {
-		ip.ex.endPath("unsupported", "symbolic format string")
+		return ip.formatSym(fr, fv, ops)
 	}
 	var out Value = ""
 	argi := 0
@@ -239,6 +239,9 @@ func (ip *Interp) fmtOne(fr *frame, verb byte, spec string, a Iface) Value {
 			}
 		case isFloat:
 			if (verb == 'v' || verb == 'g') && spec == "" {
+				if w == 32 {
+					return opaqueStr("FormatFloat32", t, Const(8, 'g'), Const(64, ^uint64(0)))
+				}
 				return opaqueStr("FormatFloat", t, Const(8, 'g'), Const(64, ^uint64(0)), Const(64, uint64(w)))
 			}
 		}
@@ -324,4 +327,86 @@ func isStringsBuilderPtr(t types.Type) bool {
 	r := t.String() == "*strings.Builder"
 	sbTypeCache.Store(t, r)
 	return r
+}
+
+// formatSym handles a format string with symbolic bytes (e.g. a message name spliced into
+// the format): every symbolic byte forks on being '%'; the bytes of a directive itself are
+// concretised.  Literal stretches are copied through.
+func (ip *Interp) formatSym(fr *frame, fv Value, ops []Value) Value {
+	for _, g := range segsOf(fv) {
+		if g.kind == segOpaque {
+			ip.ex.endPath("unsupported", "format string with opaque segment")
+		}
+	}
+	b := ip.strBytes(fv)
+	var out Value = ""
+	var lit []*Term
+	flush := func() {
+		if len(lit) > 0 {
+			out = concatStr(out, mkStr(lit))
+			lit = nil
+		}
+	}
+	argi := 0
+	for i := 0; i < len(b); {
+		c := b[i]
+		if !ip.ex.Branch(ip.ts.Eq(c, byteConst['%'])) {
+			lit = append(lit, c)
+			i++
+			continue
+		}
+		flush()
+		i++
+		if i >= len(b) {
+			out = concatStr(out, "%!(NOVERB)")
+			break
+		}
+		// flags/width/precision and verb: concrete
+		spec := ""
+		var verb byte
+		for i < len(b) {
+			ch := byte(ip.ex.Concretize(b[i], "format directive byte"))
+			i++
+			if strings.IndexByte("+-# 0123456789.", ch) >= 0 {
+				spec += string(ch)
+				continue
+			}
+			verb = ch
+			break
+		}
+		if verb == 0 {
+			out = concatStr(out, "%!(NOVERB)")
+			break
+		}
+		if verb == '%' {
+			out = concatStr(out, "%")
+			continue
+		}
+		if verb >= 0x80 {
+			ip.ex.endPath("unsupported", "non-ASCII verb in a symbolic format string")
+		}
+		if argi >= len(ops) {
+			out = concatStr(out, "%!"+string(verb)+"(MISSING)")
+			continue
+		}
+		out = concatStr(out, ip.fmtOne(fr, verb, spec, ops[argi].(Iface)))
+		argi++
+	}
+	flush()
+	if argi < len(ops) {
+		out = concatStr(out, "%!(EXTRA ")
+		for n, a := range ops[argi:] {
+			if n > 0 {
+				out = concatStr(out, ", ")
+			}
+			it := a.(Iface)
+			tn := "<nil>"
+			if it.t != nil {
+				tn = it.t.String()
+			}
+			out = concatStr(concatStr(out, tn+"="), ip.fmtOne(fr, 'v', "", it))
+		}
+		out = concatStr(out, ")")
+	}
+	return out
 }
